@@ -618,11 +618,20 @@ def r5_whence(rep, src):
     for w in (0, 1, 2):
         what = 'seek whence=%d' % w
         bad = None
+        bad_ret = None
         nok = 0
         for case, fact in (('cursor inside the member', CUR - OFF), ('cursor before the member start', OFF - CUR - 1)):
             eff = CUR if case.startswith('cursor inside') else OFF
             base = {0: OFF, 1: eff, 2: END}[w]
-            it = affinterp.Interp(f.site, _int_consts(f.module))
+            def tell_hook(it_, call, env_, facts_):
+                # self.tell() inside seek: the tell method interpreted in the current state
+                if norm(call.func) == 'self.tell' and not call.args:
+                    t_ = src.func(M + ':ArMember.tell')
+                    tn_, _x = normalize.inline_helpers(t_, depth=2)
+                    sub = affinterp.Interp(t_.site, _int_consts(t_.module))
+                    return [(o_.value, o_.facts) for o_ in sub.run(tn_.body, dict(env_), facts_) if o_.kind == 'return']
+                return None
+            it = affinterp.Interp(f.site, _int_consts(f.module), call_hook=tell_hook)
             env = dict(names)
             env[off] = D
             env[wh] = Aff.const(w)
@@ -635,14 +644,23 @@ def r5_whence(rep, src):
                 want = base + D
                 if not isinstance(got, Aff) or not (got == want or (o.facts.entails(got - want) and o.facts.entails(want - got))):
                     bad = bad or 'with the %s the cursor becomes %r; whence=%d must be relative to %s (%r)' % (case, got, w, base_name[w], want)
-                else:
-                    nok += 1
+                    continue
+                # the result of seek is the new position (what tell() answers), as for any binary file
+                res = o.value if o.kind == 'return' else None
+                pos = want - OFF
+                if o.facts.entails(pos) and not (isinstance(res, Aff) and (res == pos or (o.facts.entails(res - pos) and o.facts.entails(pos - res)))):
+                    bad_ret = bad_ret or 'seek(%s, %d) returns %r where an in-memory file returns the new position %r' % ('d', w, res, pos)
+                nok += 1
         if bad:
             rep.fail('C06.R5', f.site, what, bad, where=f.where)
         elif not nok:
             rep.fail('C06.R5', f.site, what, 'no path sets the cursor for whence=%d' % w, where=f.where)
         else:
             rep.ok('C06.R5', f.site, what, 'cur = %s + offset on %d path(s)' % (base_name[w], nok))
+        if bad_ret:
+            rep.fail('C06.R5', f.site, what + ': result', bad_ret, where=f.where)
+        elif nok:
+            rep.ok('C06.R5', f.site, what + ': result', 'the new position')
     t = src.func(M + ':ArMember.tell')
     rep.saw_func(t)
     tnode, _ = normalize.inline_helpers(t, depth=2)
@@ -777,6 +795,120 @@ def r8_iteration(rep, src):
             where=f.where)
 
 
+def r9_readlines_hint(rep, src):
+    """readlines(hint) interpreted with readline() answering a four-line member line by line: all lines for hint <= 0 / None, else
+    the lines up to and including the one that brings the total size to hint (io.IOBase.readlines)"""
+    from .. import heap as H
+    f = src.mod(M).method('ArMember', 'readlines')
+    rep.saw_func(f)
+    lines = [b'l1\n', b'l22\n', b'l333\n', b'l4']
+
+    def ref(hint):
+        if hint is None or hint <= 0:
+            return list(lines)
+        out, n = [], 0
+        for l_ in lines:
+            out.append(l_)
+            n += len(l_)
+            if n >= hint:
+                break
+        return out
+    bad = None
+    n = 0
+    for hint in ('default', 0, -1, None, 1, 3, 4, 7, 8, 100):
+        calls = {'n': 0}
+
+        def readline(it, args, kw, calls=calls):
+            calls['n'] += 1
+            return lines[calls['n'] - 1] if calls['n'] <= len(lines) else b''
+        heap = H.Heap(src.mod(M), hooks={'.readline': readline})
+        me = heap.alloc('ArMember', {})
+        it = H.Interp(heap)
+        n += 1
+        try:
+            r = it.call(H.Closure(f.node, {}, me, f.cls), [] if hint == 'default' else [hint])
+            got = list(it.seq(r))
+        except H.Raised as x:
+            bad = bad or 'readlines(%s) raises %s (line %d)' % ('' if hint == 'default' else hint, x.exc, x.lineno)
+            continue
+        want = ref(0 if hint == 'default' else hint)
+        if got != want:
+            bad = bad or 'readlines(%s) on the lines %r returns %r; an in-memory file returns %r' % ('' if hint == 'default' else hint, lines, got, want)
+    if bad:
+        rep.fail('C06.R9', f.site, 'readlines(hint)', bad, where=f.where)
+    else:
+        rep.ok('C06.R9', f.site, 'readlines(hint)', '%d hints: all lines for hint <= 0 / None, else up to the line that reaches the hint' % n)
+
+
+def r10_member_names(rep, src):
+    """the name of a member is what the 16-byte name field holds: up to the slash that ends it (GNU ar), else without the blank padding
+    (BSD ar).  The expression that computes it is evaluated (sa.heap, symbolic text) on both layouts with names that begin or end
+    with a blank: the result is the name, blanks included."""
+    from .. import heap as H, symstr
+    from ..symstr import SStr
+    f = src.func(M + ':ArMember.from_file')
+    rep.saw_func(f)
+    fnode = nfunc(f).node
+    # statements that compute the local assigned to the name attribute
+    stores = [st for st in ast.walk(fnode) if isinstance(st, ast.Assign) and len(st.targets) == 1 and isinstance(st.targets[0], ast.Attribute)
+              and st.targets[0].attr.endswith('__name')]
+    if len(stores) != 1:
+        raise AnalysisError('%s: the store of the member name was not found' % f.site)
+    body = fnode.body
+    upto = next(i for i, st in enumerate(body) if stores[0] in list(ast.walk(st)))
+    bufname = None
+    for st in body[:upto + 1]:
+        for n_ in ast.walk(st):
+            if isinstance(n_, ast.Subscript) and isinstance(n_.slice, ast.Slice) and norm(n_.slice.lower or ast.Constant(value=0)) == '0' and norm(n_.slice.upper) == '16':
+                bufname = norm(n_.value)
+    if bufname is None:
+        raise AnalysisError('%s: the name field buf[0:16] is not read' % f.site)
+    stmts = [st for st in body[:upto + 1] if any(isinstance(n_, ast.Name) and n_.id in ('name',) for n_ in ast.walk(st)) or stores[0] in list(ast.walk(st))]
+    n = 0
+    for label in ('GNU layout: name, slash, padding', 'BSD layout: name, padding'):
+        bad = None
+        cases = 0
+        atoms = {'N': r'[^/\n]{1,15}', 'P': r' *'} if 'GNU' in label else {'B': r'[^/\n]{0,14}[^/ \n]', 'P': r' *'}
+
+        def run(at, label=label):
+            fld = (at['N'] + '/' + at['P']) if 'GNU' in label else (at['B'] + at['P'])
+            wnt = at['N'] if 'GNU' in label else at['B']
+            heap = H.Heap(src.mod(M), hooks={'.decode': lambda it_, a, k: a[0]})
+            heap.symbolic_strings = True
+            heap.bytes_mode = True
+            it = H.Interp(heap)
+            me = heap.alloc('ArMember', {})
+            env = {'f': me, 'encoding': 'utf-8', 'errors': None, '__namefield': fld}
+
+            class Sub(ast.NodeTransformer):
+                def visit_Subscript(self, n_):
+                    if norm(n_.value) == bufname and isinstance(n_.slice, ast.Slice) and n_.slice.upper is not None and norm(n_.slice.upper) == '16':
+                        return ast.copy_location(ast.Name(id='__namefield', ctx=ast.Load()), n_)
+                    return self.generic_visit(n_)
+            from ..core import clone as _clone
+            for st in stmts:
+                it.exec(ast.fix_missing_locations(Sub().visit(_clone(st))), env, 'ArMember')
+            got = heap.objs[me.name].get('_ArMember__name')
+            return symstr.lift(got), wnt
+        for langs, (got, wnt) in symstr.explore(atoms, run, depth=8):
+            cases += 1
+            empty = {k for k, l_ in langs.items() if l_.not_subset_witness(symstr.lit_lang('')) is None}
+            nz = lambda s_: SStr([p_ for p_ in s_.parts if isinstance(p_, str) or getattr(p_, 'name', None) not in empty])
+            if not nz(got).same(nz(wnt)):
+                wit = {k: l_.witness() for k, l_ in langs.items()}
+                bad = bad or 'for the name field %r the member is called %r instead of %r' % (
+                    ''.join(wit.get(getattr(p_, 'name', ''), p_) if not isinstance(p_, str) else p_ for p_ in ((symstr.atom('N', langs['N']) + '/' + symstr.atom('P', langs['P'])) if 'GNU' in label
+                                                                                                             else (symstr.atom('B', langs['B']) + symstr.atom('P', langs['P']))).parts),
+                    got, wnt)
+        n += 1
+        if bad:
+            rep.fail('C06.R10', f.site, 'member name: ' + label, bad + ': blanks that belong to the name are stripped (two members whose names differ only in such blanks collapse into one)', where=f.where)
+        elif not cases:
+            raise AnalysisError('%s: no case interpreted for %s' % (f.site, label))
+        else:
+            rep.ok('C06.R10', f.site, 'member name: ' + label, '%d symbolic cases' % cases)
+
+
 def check(src, rep, tier):
     rep.explanation = ('C06: (R1) for every data-returning call on the shared file object inside ArMember all CFG paths to the call are '
                        'enumerated and 0 ≤ size ≤ end−cur is proved from the guards/assignments on the path (difference-bound entailment, '
@@ -796,6 +928,10 @@ def check(src, rep, tier):
     rep.guard('C06.R3', r3_header_table, src)
     rep.guard('C06.R4', r4_padding, src)
     rep.guard('C06.R5', r5_whence, src)
+    rep.need('C06.R9', 1)
+    rep.guard('C06.R9', r9_readlines_hint, src)
+    rep.need('C06.R10', 2)
+    rep.guard('C06.R10', r10_member_names, src)
     rep.need('C06.R8', 1)
     rep.guard('C06.R8', r8_iteration, src)
     rep.need('C06.R7', 7)
